@@ -723,6 +723,10 @@ type envCase struct {
 	ChurnRates []int      `json:"churn_rates,omitempty"`
 	DrainMS    int        `json:"drain_ms,omitempty"`
 	NSets      int        `json:"nsets,omitempty"`
+	// Hdr > 0: header shapes with LARGE headers under a sustained backlog (1 = every packet: up to 15 CSRCs, one-byte
+	// or two-byte header extensions of up to ~240 bytes, payload empty or a few bytes, so the header dominates the
+	// packet; 2 = such packets mixed with plain 12-byte-header packets carrying 200..1200 bytes)
+	Hdr int `json:"hdr,omitempty"`
 	R0         int64      `json:"r0"`
 	B0         int64      `json:"b0"`
 	T0         int64      `json:"t0"`
@@ -768,7 +772,12 @@ func runEnv(c envCase, r *rand.Rand) envCase {
 			return 0, nil
 		}))
 	for i := 0; i < c.N; i++ {
-		_, _ = w.Write(&rtp.Header{Version: 2, SSRC: 1, SequenceNumber: uint16(i)}, make([]byte, 200+r.Intn(1000)), nil) //nolint:gosec
+		if c.Hdr > 0 && (c.Hdr == 1 || r.Intn(2) == 0) {
+			h, pay := heavyHeader(r, i)
+			_, _ = w.Write(h, pay, nil)
+		} else {
+			_, _ = w.Write(&rtp.Header{Version: 2, SSRC: 1, SequenceNumber: uint16(i)}, make([]byte, 200+r.Intn(1000)), nil) //nolint:gosec
+		}
 		if len(c.Rates) > 0 && i%40 == 20 {
 			f.SetRate("e", c.Rates[(i/40)%len(c.Rates)])
 		}
@@ -813,6 +822,40 @@ func runEnv(c envCase, r *rand.Rand) envCase {
 	return c
 }
 
+// heavyHeader: a packet whose header dominates: 0..15 CSRCs (15 in half of the packets), no / one-byte / two-byte
+// header extensions (up to 6 elements of <= 16 bytes; one or two elements of up to 200 + 40 bytes), payload empty or
+// 1..40 bytes. At most 12 + 60 + 4 + 244 + 40 = 360 bytes: far below the burst.
+func heavyHeader(r *rand.Rand, i int) (*rtp.Header, []byte) {
+	h := &rtp.Header{Version: 2, SSRC: 1, SequenceNumber: uint16(i)} //nolint:gosec
+	nc := 15
+	if r.Intn(2) == 0 {
+		nc = r.Intn(16)
+	}
+	for k := 0; k < nc; k++ {
+		h.CSRC = append(h.CSRC, uint32(k*31+7)) //nolint:gosec
+	}
+	switch r.Intn(4) {
+	case 0:
+	case 1:
+		for id := 1; id <= 1+r.Intn(6); id++ {
+			_ = h.SetExtension(uint8(id), make([]byte, 1+r.Intn(16))) //nolint:gosec
+		}
+	case 2:
+		_ = h.SetExtension(1, make([]byte, 17+r.Intn(184)))
+		if r.Intn(2) == 0 {
+			_ = h.SetExtension(2, make([]byte, 1+r.Intn(40)))
+		}
+	default:
+		_ = h.SetExtension(5, make([]byte, 200))
+	}
+	var pay []byte
+	if r.Intn(3) > 0 {
+		pay = make([]byte, 1+r.Intn(40))
+	}
+
+	return h, pay
+}
+
 func (c envCase) toCase() cq.Case {
 	ev := make([]string, len(c.Evs))
 	for i, e := range c.Evs {
@@ -833,6 +876,20 @@ func (c envCase) toCase() cq.Case {
 			b = append(b, "backlog-sustained")
 		}
 	}
+	if c.Hdr > 0 {
+		b = []string{"large-headers-under-backlog", map[int]string{1: "every-packet-header-dominated", 2: "large-and-plain-headers-mixed"}[c.Hdr]}
+		var hb, tot int64
+		for _, s := range c.Sizes {
+			tot += s
+		}
+		hb = tot / int64(len(c.Sizes)+1)
+		if hb < 8*400 && c.Hdr == 1 {
+			b = append(b, "mean-packet-below-400-bytes")
+		}
+		if len(c.Sizes) < c.N {
+			b = append(b, "backlog-sustained")
+		}
+	}
 
 	return cq.Case{Coq: cq.T(cq.Z(c.R0), cq.Z(c.B0), cq.Z(c.T0), cq.L(ev), cq.LZ(c.Sizes)), JSON: c, Buckets: b, Trivial: len(c.Evs) < 2}
 }
@@ -843,7 +900,7 @@ func main() {
 	var fails []cq.ImplFailure
 	pac := &cq.Set{Name: "c17pacing", Import: "IV.Check.C17Check", CaseType: "q_case", Checks: []string{"pacing_mismatches", "pacing_spec_failures"}}
 	lea := &cq.Set{Name: "c17leaky", Import: "IV.Check.C17Check", CaseType: "q_case", Checks: []string{"leaky_mismatches", "leaky_spec_failures"}}
-	env := &cq.Set{Name: "c17env", Import: "IV.Check.C17bCheck", CaseType: "env_case", Checks: []string{"env_spec_failures", "env_tight_failures"}}
+	env := &cq.Set{Name: "c17env", Import: "IV.Check.C17dCheck", CaseType: "env_case", Checks: []string{"env_real_failures", "env_spec_failures", "env_tight_failures"}}
 	pcl := &cq.Set{Name: "c17pclose", Import: "IV.Check.C17bCheck", CaseType: "close_case", Checks: []string{"pclose_mismatches", "pclose_spec_failures"}}
 	lcl := &cq.Set{Name: "c17lclose", Import: "IV.Check.C17bCheck", CaseType: "close_case", Checks: []string{"lclose_mismatches", "lclose_spec_failures"}}
 	rou := &cq.Set{Name: "c17route", Import: "IV.Check.C17cCheck", CaseType: "route_case", Checks: []string{"route_mismatches", "route_spec_failures"}}
@@ -1044,6 +1101,17 @@ func main() {
 		}
 		env.Cases = append(env.Cases, runEnv(c, r).toCase())
 	}
+	// large headers under a sustained backlog: the real bits handed downstream (8 * (marshalled header + payload), measured
+	// by the next writer) against the envelope. Own PRNG stream: the other cases keep their inputs.
+	nh := o.Scale(6, 120)
+	rh := rand.New(rand.NewSource(o.Seed*1000003 + 29)) //nolint:gosec
+	for i := 0; i < nh; i++ {
+		c := envCase{Rate: 400_000 + rh.Intn(800_000), N: 150 + rh.Intn(100), Hdr: 1 + i%2}
+		if i%4 >= 2 {
+			c.Rates = []int{300_000 + rh.Intn(600_000), 1_000_000 + rh.Intn(500_000), 500_000}
+		}
+		env.Cases = append(env.Cases, runEnv(c, rh).toCase())
+	}
 	extra := map[string]interface{}{
 		"env_allow_events":                   nAllow,
 		"env_max_stamp_staleness_ns":         maxStale,
@@ -1088,7 +1156,9 @@ func main() {
 		"mid-stream rate changes, caller scribbles its header and payload right after Write returns, one oversize-head case per 17; delivered sequence compared "+
 		"per writer with the accepted one; non-trivial = at least 2 accepted packets; env: real rate.Limiter calls recorded through the pacerFactory hook, "+
 		"cumulative granted bits checked against burst_max + sum(rate*dt) with 2 ms clock slack per call (env_spec_failures) and against the tight bound that bills only "+
-		"the actual backward steps of the time stamps plus 5 ms per SetRate (env_tight_failures); "+
+		"the actual backward steps of the time stamps plus 5 ms per SetRate (env_tight_failures); env_real_failures: the same tight bound applied to the REAL bits the next writer "+
+			"measured (8 * (marshalled header size + payload length)) instead of the debited amounts, and every debit must equal the real size; env large-header cases: 150..250 packets with up to "+
+			"15 CSRCs and one-/two-byte header extensions of up to ~240 bytes, payload empty or 1..40 bytes (alone or mixed with plain packets), 0.4..1.2 Mbit/s, with and without rate changes; "+
 		"env churn cases: backlog of 300..500 packets at 0.1..1.2 Mbit/s, a goroutine calls SetRate (same rate / different rates) every 2..10 ms for 300..500 ms while the backlog drains; "+
 		"close sets: Close called 0..60 ms into the traffic of 1..4 writers (sequential or concurrent), 1..3 writes per writer after Close returned, second Close; "+
 		"per call phase (before/racing/after Close) and result, delivered sequence, count delivered when Close returned vs 8 ms later, compared with the LTS with Close; "+
